@@ -9,7 +9,8 @@ def _solve_one(job):
     t0 = time.time()
     res, model, solver = 'unknown', None, 'z3'
     try:
-        s = z3.Solver()
+        ctx = z3.Context()
+        s = z3.Solver(ctx=ctx)
         s.set('timeout', timeout_ms)
         s.from_string(smt2)
         r = s.check()
@@ -40,7 +41,7 @@ def _solve_one(job):
                             pass
         else:
             # retry once with another seed (instability, not incompleteness, is the usual cause)
-            s2 = z3.Solver()
+            s2 = z3.Solver(ctx=z3.Context())
             s2.set('timeout', timeout_ms)
             s2.set('random_seed', 7)
             s2.from_string(smt2)
